@@ -23,11 +23,11 @@ moves before it.
     built by `eager_script` have that shape: per tick R=2*(ops+c)+3 rounds of [send next value,
     receive], then `t`. In that regime a receive that finds nothing at a time later than
     (floor(i/ops)+1)*interval (i = deliveries so far), or a delivery i later than that, is a violation.
-  * the Throttling rules of C06 (checks/C06_throttle.py: prefix, close, goroutine census) are applied to
+  * the Throttling rules of C06 (checks/C06_throttle.py: prefix, close; not its goroutine census, which this property does not speak of) are applied to
     every script as well; scripts with cancel/close at random points come from its generator.
 The first violation is shrunk by delta debugging over the move list (re-running the implementation).
 """
-import json
+import json, re
 import vlib, lockstep as ls
 
 STAGE = "Throttling"
@@ -210,6 +210,7 @@ def evaluate(ctx, script, tr, record=True):
     cfg = tr.cfg
     ops, cap, ival = int(cfg["ops"]), int(cfg["cap"]), int(cfg["ival"])
     bound = 2 * ops + 1 + cap
+    dl = int(cfg.get("dl", 0))
     key = {"stage": STAGE}
     vs = []
     sent, got = [], []
@@ -230,6 +231,8 @@ def evaluate(ctx, script, tr, record=True):
                 if not (prev and prev[0] == "r0" and prev[1] == "empty" and waiting > 0 and t + d <= (t // ival + 1) * ival):
                     regime = False
             t += int(mv[1:])
+            if dl and t >= dl:
+                cancelled = True     # the context's deadline has passed: "before cancellation" ends here
         elif c == "s" and res == "ok":
             sent.append(int(mv[1:]))
         elif c == "c" and res == "ok":
@@ -270,11 +273,9 @@ def evaluate(ctx, script, tr, record=True):
                 if not closed_in and not cancelled:
                     vs.append(vlib.Violation("impl", "Throttling closed `out` although the input is open and the context live", case=script, key=key))
         elif c == "z":
-            n = int(res)
-            drained = closed_in and got == sent
-            if drained and n > 1:   # only the pacer may remain (after cancel: see checks/C06_throttle.py)
-                vs.append(vlib.Violation("impl", "Throttling: %d goroutines alive after the input was closed and the output drained (cancelled=%s); only the pacer may remain" % (n, cancelled),
-                                         case=script, key=dict(key, **{"class": "leak"})))
+            # goroutine counts are C06's subject (checks/C06_throttle.py evaluates them on the same scripts); this
+            # property says nothing about them, so a rewrite that keeps a helper goroutine is no alarm here
+            pass
         prev = (mv, res)
     # window bound on the deliveries before cancellation: D[i+bound] >= D[i] + interval
     worst = 0
@@ -335,6 +336,49 @@ def shrink(ctx, binp, v, evalf, rounds=10):
     return best
 
 
+def with_deadline(rng, scripts):
+    """the same scripts under a caller context that carries a deadline (context.WithTimeout): the deadline falls inside
+    the run, not on a multiple of interval/2 (no tie between the deadline and a refill or a scripted instant)"""
+    out = []
+    for s in scripts:
+        cfgs, mv = s.split(" | ", 1)
+        ival = int(re.search(r"ival=(-?\d+)", cfgs).group(1))
+        if ival < 4:
+            continue
+        dl = rng.randrange(0, 5) * ival + rng.choice([1, ival // 4, ival // 2 + 1, ival - 1])
+        out.append("%s dl=%d | %s" % (cfgs, dl, mv))
+    return out
+
+
+def judge_direct(ctx, scripts, binp, both):
+    """ls.judge without the model comparison (the oracle's lock-step model has no deadline contexts): run on the
+    implementation, crash attribution, direct oracle"""
+    obs, crashes = ls.run_scripts(ctx, binp, scripts)
+    for i, s in enumerate(scripts):
+        if i in crashes:
+            txt = crashes[i]
+            cls = "deadlock" if "deadlock" in txt else ("panic" if "panic" in txt else "crash")
+            m = re.search(r"panic: ([^\n]*)", txt)
+            ctx.violations.append(vlib.Violation("impl", "pipe.Throttling (context with deadline): the library crashed: %s" % (m.group(1) if m else cls), case=s,
+                                                 got=txt[-1500:], key={"stage": STAGE, "pkg": "pipe", "class": cls}))
+            continue
+        if obs[i] is None:
+            ctx.broken.append({"kind": "correspondence", "detail": "no observation for script", "case": s})
+            continue
+        tr = ls.Trace(s, obs[i])
+        if not tr.complete:
+            ctx.broken.append({"kind": "correspondence", "detail": "observation line does not match the script", "case": s, "impl": " ".join(obs[i])[:2000]})
+            continue
+        ctx.cov["direct_oracle_only"] = ctx.cov.get("direct_oracle_only", 0) + 1
+        ctx.hist("context", "deadline (WithTimeout), direct oracle only")
+        ctx.violations += both(s, tr)
+        ctx.count(s, nontrivial=bool(tr.recv))
+        if i % 97 == 0:
+            ctx.sample({"script": s[:600], "observations": " ".join(obs[i])[:1500], "model": "not asked (direct oracle only)"}, limit=10)
+    if -1 in crashes:
+        ctx.broken.append({"kind": "correspondence", "detail": "harness failed: " + crashes[-1][-800:]})
+
+
 def run(ctx):
     ctx.cov["rule"] = ("script = Throttling config (ops 1..4, capacity 0..3, interval 10/100/1000 virtual ms) + environment moves (non-blocking send, "
                        "close, non-blocking receive, virtual sleep, goroutine census) replayed under testing/synctest: eager runs (input always available, consumer "
@@ -362,12 +406,15 @@ def run(ctx):
         ctx.broken.append({"kind": "correspondence", "detail": "lock-step harness does not build against /repo/pipe", "log": err})
         return
     from checks import C06_throttle
-    both = lambda s, tr, rec=True: evaluate(ctx, s, tr, record=rec) + C06_throttle.evaluate(s, tr)
+    both = lambda s, tr, rec=True: evaluate(ctx, s, tr, record=rec) + C06_throttle.evaluate(s, tr, census=False)
     ls.judge(ctx, scripts, both, sub="throttle", binp=binp)
     if not ctx.replay:
         # "before cancellation": scripts with cancel and close at random points (generator of the C06 share)
         sc = C06_throttle.gen_scripts(ctx.rng, 3000 if ctx.thorough() else 400)
         ls.judge(ctx, sc, both, sub="throttle", binp=binp)
+        # the caller's context may carry a deadline: the rate bound holds up to the moment it passes
+        dsc = with_deadline(ctx.rng, gen_scripts(ctx.rng, 3000 if ctx.thorough() else 400) + [worst_burst(o, c, 100) for o in (1, 2, 3) for c in (0, 1, 2)])
+        judge_direct(ctx, dsc, binp, both)
         if ctx.violations:
             # report the smallest script on which the implementation still violates the property
             ctx.violations.sort(key=lambda v: len(v.case or ""))
